@@ -61,7 +61,10 @@ func BuildCopyBin(scn M, rng *rand.Rand) (oids []int, st *binStream) {
 				}
 			}
 		}
+		widthCol := S(Sub(scn, "corrupt"), "kind") == "width" && I(Sub(scn, "corrupt"), "col") == j+1
 		switch {
+		case widthCol:
+			oids[j] = []int{23, 20, 700, 701, 1082, 1114}[rng.Intn(6)] // fixed width of at least four bytes
 		case needEmpty:
 			oids[j] = []int{25, 1043, 17}[rng.Intn(3)]
 		case need2:
@@ -119,6 +122,16 @@ func BuildCopyBin(scn M, rng *rand.Rand) (oids []int, st *binStream) {
 					}
 				}
 				f["val"] = pgw.Dig([]byte(canon))
+				if S(corrupt, "kind") == "width" && I(corrupt, "row") == ri+1 && I(corrupt, "col") == j+1 {
+					// framing intact, but the value has not the size of the column's type
+					if S(corrupt, "how") == "short" {
+						enc = enc[:len(enc)-1-rng.Intn(2)]
+					} else {
+						extra := make([]byte, []int{1, 2, 4, 4, 8}[rng.Intn(5)])
+						rng.Read(extra)
+						enc = append(append([]byte{}, enc...), extra...)
+					}
+				}
 				l := u32(len(enc))
 				if huge {
 					l = u32(hugeLen)
